@@ -217,7 +217,7 @@ pub fn run(args: &Args) -> i32 {
     }
     if args.thorough() {
         // true length and estimate both above 512 KiB (thousands of epochs each: few cases)
-        for j in 0..6usize {
+        for j in 0..3usize {
             let len = 524_288 + 256 * (3 + j * 401) + j;
             cases.push(Case { shape: 2 + (j as u64 % 3), case_seed: r.next(), source_len: len, estimate: len, dict_size: 16_384, chunk: 0 });
         }
@@ -302,7 +302,7 @@ pub fn run(args: &Args) -> i32 {
         // the epoch loop is quadratic in the source length (one pass over the sample per 100 bytes read): a flat budget
         // would call the few large thorough cases "non terminating". Builds with overflow checks are several times slower.
         let slow_build = if args.build.starts_with("chk") { 5.0 } else { 1.0 };
-        let cpu_budget = (cpu_budget + 3.0 * (c.source_len as f64 / 100_000.0).powi(2)) * slow_build;
+        let cpu_budget = (cpu_budget + 20.0 * (c.source_len as f64 / 100_000.0).powi(2)) * slow_build;
         if cpu > cpu_budget {
             rec.violation(Sig::new("cpu_budget", site_class, &format!("source={len_class}")), json!({"cpu_s": cpu, "budget_s": cpu_budget, "source_len": c.source_len}), replay);
             return;
